@@ -34,11 +34,12 @@ func (Driver) Info() core.Info {
 			"(numeric: exact arithmetic defines the result; collection: at least one member)",
 		Assumptions: []string{
 			"reference = exact extended rationals (math/big.Rat) for numbers, enumerated truth tables for booleans, the Go slice/map a collection was built from (keys NFC-normalised with x/text) for collections; returned members are compared with the members put in by type, documented equality (mon.ModelEqual) and RawEquals",
-			"tolerance for Add/Subtract/Multiply/Divide/Negate/Absolute: relative error <= 2^-(p-2), p = smaller operand precision; exact when the exact result is an integer whose significant bits fit in p. An integer sum that needs more bits than the operands carry (MaxUint64+2 at 64 bits) may come back rounded: counted as an observation",
+			"tolerance for Add/Subtract/Multiply/Divide/Negate/Absolute: relative error <= 2^-(p-2), p = the LARGER operand precision (every operation computes at least at that precision); exact when the exact result is an integer whose significant bits fit in p. An integer sum that needs more bits than either operand carries (MaxUint64+2 at 64/64 bits) may come back rounded: counted as an observation",
+			"relational clauses, decided by exact comparison of two library results (no reference): a.Add(b) = b.Add(a), a.Multiply(b) = b.Multiply(a), a.Subtract(b) = b.Subtract(a).Negate(), a<b iff b>a, a<=b iff b>=a (and that both calls panic or neither does); the sign of a zero is not compared",
 			"Multiply additionally: a product that fits in 512 bits must be exact (its documented precision selection: in-code comments and CHANGELOG 1.7.1)",
 			"numbers are within the documented domain: representable in at most 512 bits of mantissa (no NaN); generated precisions 32..512",
 			"Modulo (finite receiver, finite non-zero divisor): exact when the exact remainder is an integer fitting in p bits; |result| <= |divisor|; otherwise within 2^-(p-2) of the larger operand magnitude, and a quotient within operand precision of an integer may resolve to either neighbour",
-			"LessThanOrEqualTo/GreaterThanOrEqualTo are documented as LessThan/GreaterThan OR Equals: two numbers that are documented-equal (same shortest decimal text) although exactly different, and that lie within operand precision of each other, count as a tie; two numbers with exactly the same value must compare <= and >= (class exactly-equal-fractions-at-different-precisions)",
+			"LessThanOrEqualTo/GreaterThanOrEqualTo are documented as LessThan/GreaterThan OR Equals: two numbers that are documented-equal (same shortest decimal text) although exactly different, and that lie within operand precision of each other, count as a tie (this tie rule alone uses the SMALLER operand precision); two numbers with exactly the same value must compare <= and >= (class exactly-equal-fractions-at-different-precisions)",
 			"negative zero is exactly zero: x/(-0) must give the infinity with the sign of x as documented for a zero divisor (class neg-zero-divisor, F-14); the sign of a zero RESULT is never asserted",
 			"recorded, not asserted (nothing documented or documentation contradicts itself): inf-inf, 0*inf, Modulo with a zero divisor (doc comment says +-Inf, implementation and its unit test return the receiver), Modulo with an infinite operand, Index/HasIndex on a set (docs/types.md vs the method comment), Length() of an object (method comment promises a panic, code answers the attribute count)",
 			"rejection = any panic; HasIndex is documented never to panic on the key and to answer False for a key of the wrong type",
